@@ -73,10 +73,10 @@ fn ops<T: Sc>(t: &mut Toks, cx: &mut Ctx) -> String {
         let exact = T::is_exact() || cx_small(&pc) && cx_small(&qc);
         if exact {
             if let Ok(z) = &sum { cx.check(zero_pad_eq(&coeffs(z), &r_add(&pc, &qc, false)) && coeffs(z).len() == if pc.is_empty() { qc.len() } else if qc.is_empty() { pc.len() } else { pc.len().max(qc.len()) }, "sum: coefficients/size"); } else { cx.fail("sum panicked"); }
-            if let Ok(z) = &dif { cx.check(zero_pad_eq(&coeffs(z), &r_add(&pc, &qc, true)), "difference: coefficients"); } else { cx.fail("difference panicked"); }
-            if let Ok(z) = &ng { cx.check(same_vec(&coeffs(z), &pc.iter().map(|c| -*c).collect::<Vec<_>>()), "negation"); }
+            if let Ok(z) = &dif { cx.check(zero_pad_eq(&coeffs(z), &r_add(&pc, &qc, true)) && coeffs(z).len() == if pc.is_empty() { qc.len() } else if qc.is_empty() { pc.len() } else { pc.len().max(qc.len()) }, "difference: coefficients/size"); } else { cx.fail("difference panicked"); }
+            if let Ok(z) = &ng { cx.check(same_vec(&coeffs(z), &pc.iter().map(|c| -*c).collect::<Vec<_>>()), "negation"); } else { cx.fail("negation panicked"); }
             if let Ok(z) = &prd { cx.check(same_vec(&coeffs(z), &r_mul(&pc, &qc)), "product: not the convolution / wrong size"); } else { cx.fail("product panicked"); }
-            if let Ok(z) = &sm { cx.check(same_vec(&coeffs(z), &pc.iter().map(|c| *c * s).collect::<Vec<_>>()), "scalar multiple"); }
+            if let Ok(z) = &sm { cx.check(same_vec(&coeffs(z), &pc.iter().map(|c| *c * s).collect::<Vec<_>>()), "scalar multiple"); } else { cx.fail("scalar multiple panicked"); }
             if T::is_exact() {
                 match &ep { Ok(v) => cx.check(!pc.is_empty() && *v == r_eval(&pc, x), "eval != sum a_k x^k"), Err(_) => cx.check(pc.is_empty(), "eval panicked on a non-empty polynomial") }
                 if let (Ok(a), Ok(b), Ok(c)) = (&ep, &eq, &es) { cx.check(*a + *b == *c, "eval(p+q) != eval p + eval q"); }
@@ -102,7 +102,8 @@ fn ops<T: Sc>(t: &mut Toks, cx: &mut Ctx) -> String {
     if pc.iter().all(|c| *c == T::zero()) && qc.iter().all(|c| *c == T::zero()) { cx.meta("trivial", 1); }
     out
 }
-fn cx_small<T: Sc>(v: &[T]) -> bool { v.iter().all(|c| { let m = c.mag64(); m == 0.0 || (m <= 64.0 && (m * 8.0).fract() == 0.0) }) }
+/// small dyadic values (multiples of 1/8 up to 64 in each component): sums and products of a few of them are exact in f64
+fn cx_small<T: Sc>(v: &[T]) -> bool { let ok = |m: f64| m == 0.0 || (m.abs() <= 64.0 && (m * 8.0).fract() == 0.0); v.iter().all(|c| { let (re, im) = c.parts64(); ok(re) && ok(im) }) }
 
 fn polydiv<T: Sc>(t: &mut Toks, cx: &mut Ctx) -> String {
     let uc: Vec<T> = t.vec();
